@@ -214,6 +214,8 @@ injective_ne!(c24__f128_meta0_meta1, f128::BaseElement, f128::BaseElement, 0, 1,
 injective_ne!(c24__f128_meta1_meta2, f128::BaseElement, f128::BaseElement, 1, 2, 20);
 //@ harness=c24__f128_meta15_meta16 tier=quick kind=prove cap=1200 :: metadata of length 15 vs 16 (chunk boundary): seeds always differ
 injective_ne!(c24__f128_meta15_meta16, f128::BaseElement, f128::BaseElement, 15, 16, 20);
+//@ harness=c24__f128_meta16_meta17 tier=quick kind=prove cap=1200 :: metadata of length 16 vs 17 (both two chunks, partial last chunk): seeds differ unless only trailing zeros are added
+injective_ne!(c24__f128_meta16_meta17, f128::BaseElement, f128::BaseElement, 16, 17, 20);
 //@ harness=c24__f128_vs_f64 tier=quick kind=prove cap=900 :: contexts over f128 vs f64 (different modulus): seeds always differ
 injective_ne!(c24__f128_vs_f64, f128::BaseElement, f64::BaseElement, 0, 0, 20);
 //@ harness=c24__f64_vs_f62 tier=quick kind=prove cap=900 :: contexts over f64 vs f62 (different modulus, same byte length): seeds always differ
